@@ -240,6 +240,19 @@ def r3(ctx):
         reach = [lab for lab, v in (("None", None), ("empty", ()), ("non-empty", (1, 2))) if evp.may_hold(fa, {"value": v})]
         ctx.check("Property.ReadProperty:indexes-every-array", reach == ["empty", "non-empty"], where(pc.module, sub[0]),
                   "the array's indexing must be reached for every array value, empty or not, and only skipped when there is no value; reached for %s" % reach)
+    # a python list written to a whole array / list property is turned into the property's datatype (an ArrayOf keeps
+    # its length in slot 0: a raw list stored there answers index 0 with the first element)
+    wpf = pc.methods["WriteProperty"]
+    conv = [st for st in ast.walk(wpf) if isinstance(st, ast.Assign) and norm(st.targets[0]) == "value" and norm(st.value) == "self.datatype(value)"]
+    for kind in ("Array", "List"):
+        good = []
+        for st in conv:
+            at = atom_texts(facts_at(st))
+            if ("issubclass(self.datatype, %s)" % kind, True) in at and ("arrayIndex is not None", True) not in at:
+                good.append(st)
+        ctx.check("Property.WriteProperty:whole-%s-write-converted" % kind.lower(), len(good) == 1, where(pc.module, good[0] if good else wpf),
+                  "a whole-%s write must store self.datatype(value), not the caller's python list" % kind.lower())
+    _fix_length_distinct(ctx)
     # computed property list
     lo = prog.module("local.object")
     cpl = prog.cls("local.object", "CurrentPropertyList")
@@ -257,6 +270,24 @@ def r3(ctx):
     rej = [i for i in (0, 1, 3, 4, 7) if rs and evl.must_hold([z for z in facts_at(rs[0]) if "len(" in norm(z.test)], {"arrayIndex": i, "len(property_list)": 3})]
     ok = got.get(0) == {"len(property_list)"} and "property_list[arrayIndex - 1]" in got.get(1, set()) and rej == [4, 7] and len(rs) == 1 and "invalidArrayIndex" in norm(rs[0].exc)
     ctx.check("CurrentPropertyList.ReadProperty:indexing", ok, where(lo, r), "index 0 -> length, 1..n -> element n-1 of the list, above n -> invalidArrayIndex (found returns %r, refused %r)" % ({k: sorted(v) for k, v in got.items()}, rej))
+
+
+def _fix_length_distinct(ctx):
+    """growing an array creates one object per new slot (shared with C17.R7)"""
+    prog = ctx.prog
+    cd = prog.module("constructeddata")
+    af = cd.functions.get("ArrayOf")
+    fx = [st for st in ast.walk(af) if isinstance(st, ast.FunctionDef) and st.name == "fix_length"] if af else []
+    if not fx:
+        raise AnchorMissing("ArrayOf.fix_length")
+    mult = [x for x in ast.walk(fx[0]) if isinstance(x, ast.BinOp) and isinstance(x.op, ast.Mult) and isinstance(x.left, ast.List) and len(x.left.elts) == 1]
+    for x in mult:
+        el = x.left.elts[0]
+        atomic_only = any(("Atomic" in t and pol) for t, pol in atom_texts(facts_at(x)))
+        ctx.check("ArrayOf.fix_length:distinct-elements[%s]" % norm(el), atomic_only or isinstance(el, ast.Constant), where(cd, x),
+                  "[%s] * n puts one and the same object into every new slot; for constructed elements (priority values) a write to one slot then shows in all of them" % norm(el))
+    grow = [x for x in ast.walk(fx[0]) if isinstance(x, ast.Call) and isinstance(x.func, ast.Attribute) and x.func.attr in ("append", "extend") and norm(x.func.value) == "self.value"]
+    ctx.check("ArrayOf.fix_length:grows", len(grow) >= 1, where(cd, fx[0]), "fix_length must add the missing elements")
 
 
 def _cascade(prog, module, fn, idx_text):
@@ -453,3 +484,9 @@ def _writable(kind):
 
 def _optional(kind):
     return kind == "OptionalProperty"
+
+
+@rule("C15.R7", "a write to a commandable present value stores exactly the commanded value in exactly the commanded slot (a falsy value is a value, not a relinquish)", floor=1, engines="E1 paths (shared with C17.R3)")
+def r7(ctx):
+    from . import c17
+    c17.r3(ctx)
